@@ -423,10 +423,12 @@ class NameConverter(ast.NodeTransformer):
         tmp = f"__TMP{next(self.count)}_"
 
         def _make_lookup_call(key, arg):
+            # (not the bare name `type`: the user's function may have a
+            # parameter or a local variable of that name)
             name = (
                 "__SUBTLER_TYPE"
                 if self.analysis.lookup_for(key) is subtler_type
-                else "type"
+                else "__TYPE"
             )
             value = ast.NamedExpr(
                 target=ast.Name(id=f"{tmp}{key}", ctx=ast.Store()),
@@ -592,6 +594,7 @@ def recode(fn, ovld, recurse_sym, call_next_sym, newname):
     new_fn.__annotations__ = fn.__annotations__
     new_fn = rename_function(new_fn, newname)
     new_fn.__globals__["__SUBTLER_TYPE"] = subtler_type
+    new_fn.__globals__["__TYPE"] = type
     new_fn.__globals__[ovld_mangled] = ovld.dispatch
     new_fn.__globals__[map_mangled] = ovld.map
     new_fn.__globals__[code_mangled] = new_fn.__code__
